@@ -125,6 +125,11 @@ class HHG(Harness):
             for v in _raw(g):
                 eng.assume(z3.And(v.e >= -50, v.e <= 50))
         h.g = g
+        # an arbitrary point of the run: the hedge has been consulted `count` times before
+        cnt = eng.integer("count")
+        if not eng.concrete:
+            eng.assume(z3.And(cnt.e >= 0, cnt.e <= 100000))
+        h.count = cnt
         out = Out()
         h(np.zeros(D), None, None, None, None, {})
         prob = np.asarray(_raw(h.prob))
